@@ -632,7 +632,7 @@ def run(ctx):
     for v in grid_tuples():
         emit({'kind': 'rt', 'v': list(v)})
     ctx.exhaustive['component tuples of length 1..5 over {0,1,9,10,99,100,999}, head non-zero'] = True
-    for _blk, rng, n in blocks('rt', ctx.pick(8000, 400000)):
+    for _blk, rng, n in blocks('rt', ctx.pick(8000, 1600000)):
         for _ in range(n):
             evaluate(ctx, {'kind': 'rt', 'v': list(random_tuple(rng))})
 
@@ -682,7 +682,7 @@ def run(ctx):
                            ('1', '1.0', (1,), (1, 0)), ('1.2.3', '1.2.4', (1, 2, 3), (1, 2, 4))]:
         emit({'kind': 'compat', 'gen': 'directed', 'kw': True, 'req': M.to_json(M.make(0, rv)),
               'cur': M.to_json(M.make(0, cv)), 'req_s': rs, 'cur_s': cs})
-    for blk, rng, n in blocks('compat', ctx.pick(60000, 1200000)):
+    for blk, rng, n in blocks('compat', ctx.pick(60000, 5000000)):
         for i in range(n):
             gen, a, b = gen_pair(rng, (blk * BLOCK + i) % 10)
             if rng.random() < 0.5:
@@ -703,7 +703,7 @@ def run(ctx):
           'cands': [[M.to_json(M.make(0, r)), '.'.join(map(str, r))]
                     for r in ((1, 0, 0), (1, 10, 0), (0, 9, 0), (2, 0, 0))]})
     modes = ('all-true', 'one-false', 'range', 'random')
-    for blk, rng, n in blocks('pred', ctx.pick(9000, 180000)):
+    for blk, rng, n in blocks('pred', ctx.pick(9000, 800000)):
         for i in range(n):
             evaluate(ctx, gen_predicate(rng, modes[(blk * BLOCK + i) % 4]))
 
